@@ -12,7 +12,7 @@
    BLAKE3 and the placement <hh>/<rest> are checked by re-hashing the whole observed cache with
    the Gallina BLAKE3 in the correspondence runs. *)
 From Coq Require Import NArith List Bool.
-From DudV Require Import Base.Bytes Model.Fs Model.Cache Model.System Proofs.CacheDefs Proofs.CommitProofs Proofs.Glue.
+From DudV Require Import Base.Bytes Model.Fs Model.Cache Model.System Proofs.CacheDefs Proofs.CommitProofs Proofs.Glue Model.Remote Proofs.FetchRetryProofs Proofs.TransferHistoryProofs.
 Import ListNotations.
 
 Theorem C02_history :
@@ -44,3 +44,27 @@ Print Assumptions C02_commit.
 Theorem C02_initial : forall (H : bytes -> bytes), cache_ok H [].
 Proof. exact cache_ok_empty. Qed.
 Print Assumptions C02_initial.
+
+(* ... and over histories that INCLUDE the transfers: [gstep] runs any local command (step), a
+   `dud push` / `dud fetch` (Model/Remote.v rstep_push / rstep_fetch on the project and a remote
+   cache), or a transfer that rclone aborted part-way followed by the permission fix-up
+   (interrupted_copy, any cut, any file list).  Both stores - the local cache and the remote - stay
+   content-addressed and read-only and never lose or alter an object. *)
+Theorem C02_history_with_transfers :
+  forall (H : bytes -> bytes), H_inj H ->
+    forall sems (cmds : list gcommand) (w : world) (remote : cache),
+      cache_ok H (w_cache w) -> cache_ok H remote ->
+      let g' := fold_left (gstep H sems) cmds (w, remote) in
+      cache_ok H (w_cache (fst g')) /\ cache_ok H (snd g') /\
+      cache_le (w_cache w) (w_cache (fst g')) /\ cache_le remote (snd g').
+Proof. exact transfer_history_cache_ok. Qed.
+Print Assumptions C02_history_with_transfers.
+
+Theorem C02_transfers_from_empty :
+  forall (H : bytes -> bytes), H_inj H ->
+    forall sems (cmds : list gcommand) (w : world),
+      w_cache w = [] ->
+      let g' := fold_left (gstep H sems) cmds (w, []) in
+      cache_ok H (w_cache (fst g')) /\ cache_ok H (snd g').
+Proof. exact transfer_history_from_empty. Qed.
+Print Assumptions C02_transfers_from_empty.
